@@ -470,8 +470,9 @@ func (sq *Queue) setPreemptionTime(oldMaxResource *resources.Resource, oldDelay 
 		}
 		return
 	}
-	// quota has been lowered, need to set the start time.
-	if resources.StrictlyGreaterThan(oldMaxResource, sq.maxResource) {
+	// quota has been lowered, need to set the start time. A change that lowers one resource type and raises another is
+	// handled in the same way: the usage is above the new max (checked above) and that must be enforced after the delay.
+	if !resources.StrictlyGreaterThan(sq.maxResource, oldMaxResource) {
 		if !sq.quotaPreemptionStartTime.IsZero() {
 			// multiple consecutive lowering of quotas detected: check for delay change
 			if oldDelay != sq.quotaPreemptionDelay {
